@@ -315,7 +315,7 @@ pub fn check(env: &Env, c: &Case) -> Outcome {
             }
             6 | 7 => {
                 let (name, cells, ratio, used) = bs[pick(c.a, bs.len())];
-                if ratio == 0 {
+                if used && ratio == 0 {
                     return Outcome::trivial("skip");
                 }
                 let cap = if used { (1u64 << t) / ratio } else { 0 };
@@ -455,6 +455,29 @@ pub fn run(ctx: &Ctx) -> Report {
     let mut rep = Report::new();
     let e = env(ctx, &mut rep);
     pt_run(ctx, "c14", ctx.n(10500, 210000), strategy, |c| check(&e, c), &mut rep);
+    // deterministic grid: every layout x every builtin x every usage variant (the generated cases hit
+    // each of the dynamic layout's ten builtins only a few times)
+    let mut grid = Vec::new();
+    for layout in 0..e.bases.len() as u8 {
+        let nb = if e.bases[layout as usize].0 == "dynamic" { 10 } else { builtins_of(&e.bases[layout as usize].0).len() };
+        for b in 0..nb {
+            for variant in 0..7u8 {
+                grid.push(Case { layout, kind: 6, a: ((((b as u32) << 16) + 32768) / nb as u32) as u16, b: 0, c: variant });
+            }
+        }
+    }
+    par_for(
+        ctx,
+        grid.len(),
+        |i, r| {
+            let o = check(&e, &grid[i]);
+            r.record(&o, || serde_json::to_value(&grid[i]).unwrap());
+            if let Some(f) = &o.fail {
+                r.fail(ctx, f, || json!({"label":"c14","case": serde_json::to_value(&grid[i]).unwrap()}));
+            }
+        },
+        &mut rep,
+    );
     rep
 }
 
